@@ -48,4 +48,15 @@ theorem src_blockAndParent_found_flag :
 theorem src_store_prune_block :
     skel_DBStore_PruneBlock = [.call "db.getBlock" [], .ifc [] [], .call "db.putBlock" [], .done] := by decide
 
+
+/-- `getAncestorInfo` decodes a record that may be header-only: version byte, then (for the
+current version) the "has header" flag and — only when there is NO cached header — the "has
+block" flag, then the header fields it needs (parent id, nonce, timestamp).  It never skips the
+cached header to read from a body that a pruned record does not have. -/
+theorem src_store_ancestor_info_decoder :
+    skel_DBStore_getAncestorInfo = [.fn, .call ".ReadUint8" [], .ifc [] ["!=", "&&", "!="], .call ".SetErr" [], .done,
+      .ifc [] ["=="], .call ".ReadBool" [], .ifc [".ReadBool()"] ["!"], .call ".ReadBool" [], .done, .done,
+      .call ".DecodeFrom" [], .call ".ReadUint64" [], .call ".ReadTime" [], .done,
+      .call "types.DecoderFunc" [], .call "db.bucket" [], .call "db.bucket(bBlocks).get" [], .ret []] := by decide
+
 end Verif.C19Src
